@@ -374,6 +374,8 @@ pub fn text(c: &Case) -> String {
         "reference-element" => body += &format!("P ::= {}\nA ::= SEQUENCE OF P {}", base(""), all),
         // the expression constrains a type P, which is then used as a contained subtype
         "contained" => body += &format!("P ::= {}\nA ::= {}", base(&all), base("(P)")),
+        // the contained subtype is itself a constrained reference
+        "contained-via-reference" => body += &format!("Q ::= {}\nP ::= Q {}\nA ::= {}", base(""), all, base("(P)")),
         "contained-includes" => body += &format!("P ::= {}\nA ::= {}", base(&all), base("(INCLUDES P)")),
         "contained-component" => body += &format!("P ::= {}\nS ::= SEQUENCE {{ f {} }}", base(&all), base("(P)")),
         "parent" => {
@@ -622,7 +624,7 @@ impl Prop for C04 {
         }
         // contained subtypes: the expression sits on a referenced type (non-extensible expressions)
         for e in e1.iter().chain(e2.iter()) {
-            for ctx in ["contained", "contained-includes", "contained-component"] {
+            for ctx in ["contained", "contained-includes", "contained-component", "contained-via-reference"] {
                 out.push(mk(vec![e.clone()], "INTEGER", ctx, false, false));
             }
         }
